@@ -6,6 +6,7 @@ import MitmVerif.Lemmas.C01_Roundtrip
 import MitmVerif.Lemmas.C01_Fold
 import MitmVerif.Lemmas.C01_FoldG2
 import MitmVerif.Lemmas.C01_Lines
+import MitmVerif.Lemmas.C01_Raw
 namespace MitmVerif.Props.C01
 open MitmVerif MitmVerif.C01
 
@@ -2009,6 +2010,107 @@ theorem lines_ambiguous_rejected (kind : Kind) (version reason reqMethod : Bytes
           · simp at hfs; subst hfs
             rw [hfr, hfrok] at hfa; simp at hfa
           · simp at hfs
+
+/-- **raw_ambiguous_rejected** (DESIGN §5 C01 (3), on raw bytes): if the strict reference reader finds the request at the front of
+    a byte stream ambiguous (non-token field name, Content-Length with Transfer-Encoding, differing / malformed Content-Length,
+    unknown / misplaced / repeated transfer coding, non-chunked request coding, Transfer-Encoding on HTTP/1.0), then whatever
+    mitmproxy reads from the same bytes — h11 `maybe_extract_lines`, `read_request_head` — is refused by `validate_headers`:
+    the message is rejected, not forwarded.  (The two readers split the head into the same lines — `extractLines_of_headLines` —
+    and the same request-line parts — `splitWs_of_requestLine`.) -/
+theorem raw_ambiguous_rejected (authOk : Bytes → Bytes → Bool) (buf : Bytes) (c : Nat)
+    (hamb : Ref.parseRequest buf = .error (.ambiguous c))
+    (ls : List Bytes) (rest : Bytes) (r : ReqHead)
+    (hex : extractLines buf = .lines ls rest) (hread : readRequestHead authOk ls = some r) :
+    validateHeaders .request r.version [] r.fields = false := by
+  unfold Ref.parseRequest at hamb
+  cases hh : Ref.headLines (buf.length + 1) buf with
+  | error e => simp [hh] at hamb; subst hamb; 
+               -- headLines never reports an ambiguity
+               exfalso
+               have : ∀ (f : Nat) (b : Bytes) (k : Nat), Ref.headLines f b ≠ .error (.ambiguous k) := by
+                 intro f
+                 induction f with
+                 | zero => intro b k; simp [Ref.headLines]
+                 | succ f ih =>
+                   intro b k
+                   simp only [Ref.headLines]
+                   cases ht : Ref.takeLine b with
+                   | none => simp
+                   | some x =>
+                     obtain ⟨res, r'⟩ := x
+                     cases res with
+                     | error e => simp
+                     | ok l =>
+                       simp only
+                       split
+                       · simp
+                       · cases hr : Ref.headLines f r' with
+                         | error e' => simp; intro he; exact ih r' k (by rw [hr, he])
+                         | ok p => simp
+               exact this _ _ _ hh
+  | ok p =>
+    obtain ⟨lsR, restR⟩ := p
+    cases lsR with
+    | nil => simp [hh] at hamb
+    | cons l lsR' =>
+      obtain ⟨hext, hclean⟩ := extractLines_of_headLines _ buf l lsR' restR hh
+      rw [hext] at hex
+      simp at hex
+      obtain ⟨rfl, rfl⟩ := hex
+      simp only [hh] at hamb
+      cases hrl : Ref.requestLine l with
+      | none => simp [hrl] at hamb
+      | some mtv =>
+        obtain ⟨m, t, v⟩ := mtv
+        simp only [hrl] at hamb
+        -- mitmproxy's reading of the same lines
+        unfold readRequestHead at hread
+        simp only at hread
+        cases hq : readRequestLine authOk l with
+        | none => simp [hq] at hread
+        | some h =>
+          cases hf : readHeaders lsR' with
+          | none => simp [hq, hf] at hread
+          | some fs =>
+            simp [hq, hf] at hread
+            subst hread
+            have hver : h.version = v :=
+              readRequestLine_version (splitWs_of_requestLine (hclean l (by simp)) hrl) hq
+            simp only
+            rw [hver]
+            apply lines_ambiguous_rejected .request v [] [] lsR' fs c (fun x hx => hclean x (by simp [hx])) hf
+            cases hfl : Ref.fields lsR' with
+            | error e =>
+              simp only [hfl] at hamb
+              left; simp at hamb; rw [hamb]
+            | ok fsR =>
+              simp only [hfl] at hamb
+              right
+              refine ⟨fsR, rfl, ?_⟩
+              cases hfr : Ref.framing fsR v .request [] with
+              | error e => simp only [hfr] at hamb; simp at hamb; rw [hamb]
+              | ok fr =>
+                simp only [hfr] at hamb
+                cases fr with
+                | none => simp at hamb
+                | cl n => simp at hamb; split at hamb <;> simp at hamb
+                | chunked =>
+                  simp at hamb
+                  -- a chunked body is malformed or incomplete, never "ambiguous"
+                  exfalso
+                  have : ∀ (f : Nat) (b acc : Bytes) (tr : Bool) (k : Nat), Ref.chunkedBody f b acc tr ≠ .error (.ambiguous k) := by
+                    intro f
+                    induction f with
+                    | zero => intro b acc tr k; simp [Ref.chunkedBody]
+                    | succ f ih =>
+                      intro b acc tr k
+                      simp only [Ref.chunkedBody]
+                      repeat' split
+                      all_goals first | (simp; done) | exact ih _ _ _ _
+                  cases hcb : Ref.chunkedBody (restR.length + 1) restR [] false with
+                  | error e => simp [hcb] at hamb; exact this _ _ _ _ _ (by rw [hcb, hamb])
+                  | ok q => simp [hcb] at hamb
+                | eof => simp at hamb
 
 /-- a folded field satisfying the hypotheses of the fold theorems: `X: a CRLF SP b` -/
 example : (⟨[88], [97], [[32, 98]]⟩ : PField).ok := by
